@@ -209,3 +209,98 @@ Proof.
   - intros s0 o e s1 HR Hs. destruct (R2_step cs _ _ _ _ HR Hs) as (A & _ & B). auto.
   - intros o e. apply W2_mono.
 Qed.
+
+(* ---- the window hypothesis is needed: a concrete accepted history on which the monitor fails ---------------- *)
+Definition ex_cfg (p : policy) (m : nat) : amap pconf :=
+  [(1%N, mkConf [] p m 0 false false false false false false false)].
+Definition ex_prefix (c : Z) : list (tid * event) :=
+  [(10, EApiBegin OpRun); (10, ENewInst 1 1); (10, EState 1 SPending); (10, ERegAdd 1 1); (10, ESpawn 1 1); (10, ERunSpawned);
+   (20, EBegin 1); (20, ERunChecked false); (20, EStarted); (20, EState 1 SRunning); (20, ELaunch true);
+   (0, ECmdExit 1 c); (20, EWaitReturn c); (20, EExitCode c); (20, ERestartDecision true); (20, EState 1 SRestarting);
+   (20, EBackoffWait 1)]%N.
+(* policy always; the command exits, the back-off begins, StopProcess sets isStopped (no_restart) but has not
+   yet entered stopProcess when the back-off elapses: the command is launched again (finding F37, window sdlag) *)
+Definition ex_bad : list (tid * event) :=
+  (ex_prefix 0 ++ [(30, EApiBegin (OpStop 1)); (30, ERegGet 1 (Some 1)); (30, EStopChecked 1 (Some 1)); (30, ENoRestart 1);
+                   (20, EBackoffElapsed); (20, EState 1 SRunning); (20, ELaunch true)])%N.
+(* policy on_failure, max_restarts 1: exit 1 -> relaunch after the back-off -> exit 2 -> gives up *)
+Definition ex_good : list (tid * event) :=
+  (ex_prefix 1 ++ [(20, EBackoffElapsed); (20, EState 1 SRunning); (20, ELaunch true); (0, ECmdExit 1 2%Z); (20, EWaitReturn 2%Z);
+                   (20, EExitCode 2%Z); (20, ERestartDecision false); (20, EProcEnd 1 SCompleted); (20, EState 1 SCompleted);
+                   (20, EProcEnded 1 SCompleted); (20, ERunReturned 2%Z)])%N.
+
+Lemma C02_refuted : exists cs ord evs s,
+  accept (init cs ord) evs = Some s /\ holds_C02 cs evs = false /\ holds cs mon_C02_core evs = false.
+Proof.
+  exists (ex_cfg PAlways 0), false, ex_bad.
+  destruct (accept (init (ex_cfg PAlways 0) false) ex_bad) as [s|] eqn:E; [|vm_compute in E; discriminate].
+  exists s. repeat split; vm_compute; reflexivity.
+Qed.
+
+Lemma C02_nonvacuous :
+  (exists s, accept (init (ex_cfg POnFailure 1) false) ex_good = Some s) /\
+  W_C02 (final_obs (ex_cfg POnFailure 1) ex_good) = false /\ length ex_good = 28 /\
+  holds_C02 (ex_cfg POnFailure 1) ex_good = true.
+Proof.
+  split; [|repeat split; vm_compute; reflexivity].
+  destruct (accept (init (ex_cfg POnFailure 1) false) ex_good) as [s|] eqn:E; [eauto|vm_compute in E; discriminate].
+Qed.
+
+(* ---- declarative reading: the monitor holds at every position of the history -------------------------------- *)
+Lemma mon_run_at cs m : forall evs o k, mon_run cs m o evs k = None ->
+  forall pre e post, evs = pre ++ e :: post -> m (fold_left (obs_step cs) pre o) e = true.
+Proof.
+  induction evs as [|a evs IH]; intros o k H pre e post E.
+  - destruct pre; discriminate.
+  - cbn in H. destruct (m o a) eqn:Em; [|discriminate]. destruct pre as [|b pre]; cbn in E.
+    + injection E as -> _. exact Em.
+    + injection E as -> E. cbn. eapply IH; eauto.
+Qed.
+
+Lemma holds_at cs m evs : holds cs m evs = true ->
+  forall pre e post, evs = pre ++ e :: post -> m cs (final_obs cs pre) e = true.
+Proof.
+  unfold holds, final_obs. intros H. destruct (mon_run cs (m cs) (obs0 cs) evs 0) eqn:E; [discriminate|].
+  eapply mon_run_at; eauto.
+Qed.
+
+(* C02, position-quantified: in an accepted history that stayed out of the windows, at every position ... *)
+Theorem C02_declarative : forall cs ord evs s,
+  accept (init cs ord) evs = Some s -> W_C02 (final_obs cs evs) = false ->
+  forall pre th e post, evs = pre ++ (th, e) :: post ->
+  let o := final_obs cs pre in
+  (* (1) a relaunch of instance i (its thread th logs launch, it was launched before) *)
+  (forall i, e = ELaunch true -> get th (o_th o) = Some i -> o_launches (oi_get o i) <> 0 ->
+     exists ec, o_code (oi_get o i) = Some ec /\
+       policy_allows (pol (conf_of cs (o_nm (oi_get o i)))) ec = true /\
+       (maxr (conf_of cs (o_nm (oi_get o i))) = 0 \/ o_launches (oi_get o i) <= maxr (conf_of cs (o_nm (oi_get o i)))) /\
+       o_elapsed (oi_get o i) = true /\ o_stopreq (oi_get o i) = false) /\
+  (* (2) the decision to relaunch is not taken after a stop request *)
+  (forall i, e = ERestartDecision true -> get th (o_th o) = Some i -> o_stopreq (oi_get o i) = false) /\
+  (* (3) the back-off is max(1, backoff_seconds) *)
+  (forall i secs, e = EBackoffWait secs -> get th (o_th o) = Some i ->
+     secs = N.max 1 (backoff (conf_of cs (o_nm (oi_get o i))))) /\
+  (* (4) giving up (Completed) after an exit is justified: policy, bound or stop request *)
+  (forall i ec, e = EProcEnded i SCompleted -> o_code (oi_get o i) = Some ec ->
+     policy_allows (pol (conf_of cs (o_nm (oi_get o i)))) ec = false \/
+     (maxr (conf_of cs (o_nm (oi_get o i))) <> 0 /\
+      maxr (conf_of cs (o_nm (oi_get o i))) <= r_restarts (on_get o (o_nm (oi_get o i)))) \/
+     o_stopreq (oi_get o i) = true).
+Proof.
+  intros cs ord evs s Hacc HW pre th e post E o.
+  pose proof (holds_at cs mon_C02 evs (C02_main cs ord evs s Hacc HW) pre (th, e) post E) as Hm.
+  fold o in Hm. unfold mon_C02 in Hm. cbn [fst snd] in Hm.
+  repeat split.
+  - intros i -> Et Hl. cbn [ev_inst] in Hm. rewrite Et in Hm.
+    destruct (Nat.eqb_spec (o_launches (oi_get o i)) 0) as [|_]; [contradiction|].
+    destruct (o_code (oi_get o i)) as [ec|]; [|discriminate]. exists ec.
+    repeat (apply andb_true_iff in Hm; destruct Hm as [Hm ?]). repeat split; auto.
+    + apply orb_true_iff in H1. destruct H1 as [H1|H1]; [left; now apply Nat.eqb_eq|right; now apply Nat.leb_le].
+    + now apply negb_true_iff.
+  - intros i -> Et. cbn [ev_inst] in Hm. rewrite Et in Hm. now apply negb_true_iff.
+  - intros i secs -> Et. cbn [ev_inst] in Hm. rewrite Et in Hm. now apply N.eqb_eq.
+  - intros i ec -> Hc. cbn [ev_inst] in Hm. rewrite Hc in Hm. apply negb_true_iff in Hm.
+    apply andb_false_iff in Hm. destruct Hm as [Hm|Hm]; [|right; right; now apply negb_false_iff].
+    apply andb_false_iff in Hm. destruct Hm as [Hm|Hm]; [now left|right; left].
+    apply orb_false_iff in Hm. destruct Hm as [A B]. split; [now apply Nat.eqb_neq|now apply Nat.ltb_ge].
+Qed.
